@@ -72,7 +72,11 @@ func (c *Cluster) spawnGenerate(n *Node, client, account string, t, parts uint32
 			}
 			out.Done = true
 		}()
-		res, err := n.Inst.AcctH.Generate(n.Inst.ClientCtx(client, ""), &pb.GenerateRequest{Account: account, Passphrase: []byte("pass"), SigningThreshold: t, Participants: parts})
+		pass := []byte("pass")
+		if c.OmitPassphrase {
+			pass = nil // the instances fall back on their configured generation passphrase
+		}
+		res, err := n.Inst.AcctH.Generate(n.Inst.ClientCtx(client, ""), &pb.GenerateRequest{Account: account, Passphrase: pass, SigningThreshold: t, Participants: parts})
 		if err != nil {
 			out.State = pb.ResponseState_FAILED
 			out.Message = err.Error()
@@ -395,6 +399,11 @@ func runDKG(t *testing.T, rc *RunCtx) {
 	c := NewCluster(t, rc, s, ClusterCfg{IDs: ids, Order: order, NdAccounts: 1})
 	defer c.Close()
 	initiator := c.Nodes[ch.Pick(len(c.Nodes), 0)]
+	// A third of the runs: clients send no passphrase of their own with their generation requests.
+	if ch.Pick(3, 0) == 2 {
+		c.OmitPassphrase = true
+		rc.Stats.Inc("runs_without_client_passphrase", 1)
+	}
 	parts := make([]*Node, 0, n)
 	if n > 1 {
 		for _, id := range order[:n] {
@@ -550,6 +559,11 @@ func runDKG(t *testing.T, rc *RunCtx) {
 			if o := s.Run(); o == "done" && out2.Done && out2.State == pb.ResponseState_SUCCEEDED {
 				rc.Stats.Inc("second_generations", 1)
 				s.Direct(func() {
+					// The later account is held to everything a success promises, like the first.
+					c.checkGenerated("C12", "Wallet 3/gen2", uint32(th), parts, out2, s.Step)
+					if len(rc.Viol) > 0 {
+						return
+					}
 					for _, p := range parts {
 						if st, sig := p.partialSign("client1", path, h32("after second"), MkDomain([4]byte{7, 0, 0, 0}, 7)); st != pb.ResponseState_SUCCEEDED || len(sig) == 0 {
 							rc.Violate("C12", "account-unusable-after-later-generation", fmt.Sprintf("%s can no longer sign with %s after %s was generated (state %v)", p.Name, path, "Wallet 3/gen2", st), s.Step)
